@@ -239,6 +239,13 @@ class C11(Property):
         ("antismash/detection/sideloader/data_structures.py", "SideloadedResults.from_json"),
         ("antismash/detection/sideloader/__init__.py", "regenerate_previous_results"),
         ("antismash/detection/sideloader/__init__.py", "is_enabled"),
+        ("antismash/detection/sideloader/__init__.py", "run_on_record"),
+        ("antismash/detection/sideloader/general.py", "load_single_record_annotations"),
+        ("antismash/common/secmet/record.py", "Record.has_name"),
+        ("antismash/detection/full_hmmer/__init__.py", "run_on_record"),
+        ("antismash/detection/cluster_hmmer/__init__.py", "run_on_record"),
+        ("antismash/common/pfamdb.py", "get_db_version_from_path"),
+        ("antismash/common/pfamdb.py", "find_latest_database_version"),
         ("antismash/common/hmmer.py", "HmmerHit.__post_init__"),
         ("antismash/common/hmmer.py", "HmmerHit.to_json"),
         ("antismash/common/hmmer.py", "HmmerHit.from_json"),
@@ -271,7 +278,10 @@ class C11(Property):
             "protoclusters, 1-4 definition domains per product; sideloaded sub-regions/protoclusters on linear and "
             "circular records incl. wrapping areas; HMMer hit lists around both thresholds; TTA records with GC "
             "content at / around the thresholds and threshold histories of 3 steps; run_module decision table. "
-            "Each: to_json -> orjson dumps/loads -> from_json/regenerate -> to_json, 3 cycles, features added to "
+            "sideloader driven by its own options through the real loader and real JSON files (files, --sideload-simple, "
+            "--sideload-by-cds, --sideload-size-by-cds; each changed alone between the saving and the reusing run); "
+            "full_hmmer/cluster_hmmer run_on_record under every combination of the two pfam-version options, stored and "
+            "installed versions. Each: to_json -> orjson dumps/loads -> from_json/regenerate -> to_json, 3 cycles, features added to "
             "fresh record copies; ~45% of cases change exactly one setting or patch one stored field (schema "
             "number, record id, strictness, rule subset, fungal multipliers, thresholds, topology, dropped optional "
             "key, displaced internal hit, unknown gene/profile). non-trivial = stored object non-empty and "
@@ -295,8 +305,8 @@ class C11(Property):
     # ------------------------------------------------------------------ case generation
     def cases(self, rng: random.Random, tier: str, deep: bool) -> Iterator[Dict[str, Any]]:
         scale = 6 if deep else 1
-        plan = [("hmmresult", 1500), ("nrpspks", 600), ("hmmdet", 350), ("sideload", 1500), ("hmmer", 1500),
-                ("tta", 600), ("resfile", 500), ("runmod", 24)]
+        plan = [("hmmresult", 1000), ("nrpspks", 500), ("hmmdet", 350), ("sideload", 1000), ("hmmer", 1200),
+                ("tta", 600), ("resfile", 500), ("sideopt", 700), ("runmod", 24)]
         for kind, n in plan:
             if kind == "runmod":
                 yield from self.all_runmod()
@@ -537,8 +547,12 @@ class C11(Property):
                 cur["max_evalue"] = rng.choice(hit_evs)
             if mut.startswith("refilter"):
                 op = "refilter"
+        versions = ["31.0", "34.0", "35.0"]
+        installed = sorted(rng.sample(versions, rng.choice([1, 2, 3])), key=float)
+        pfam = {"stored": rng.choice(installed), "installed": installed,
+                "full": rng.choice(["latest"] + installed), "cluster": rng.choice(["latest"] + installed)}
         return {"kind": "hmmer", "module": rng.choice(["full_hmmer", "cluster_hmmer"]), "record_id": rng.choice(["rec1", "X.1"]),
-                "saved": saved, "cur": cur, "hits": hits, "op": op, "mut": mut}
+                "saved": saved, "cur": cur, "hits": hits, "op": op, "mut": mut, "pfam": pfam}
 
     def gen_tta(self, rng: random.Random) -> Dict[str, Any]:
         # sequence with a chosen GC content; genes with TTA codons on both strands
@@ -595,6 +609,71 @@ class C11(Property):
             mut = rng.choice(["schema:2", "schema:4", "record_id", "empty_json"])
         return {"kind": "tta", "record_id": rng.choice(["rec1", "Y.9"]), "seq": s, "genes": genes,
                 "t0": thresholds[0], "steps": steps, "mut": mut}
+
+    def gen_sideopt(self, rng: random.Random) -> Dict[str, Any]:
+        length = rng.choice([8000, 30000, 60000])
+        circular = rng.random() < 0.5
+        ngenes = length // 1000
+        rec = {"id": rng.choice(["rec1", "acc.2"]), "original_id": rng.choice([None, None, "orig_name"]),
+               "length": length, "circular": circular, "ngenes": ngenes}
+        names = [f"g{i}" for i in range(ngenes)]
+
+        def span() -> List[int]:
+            g = rng.randrange(ngenes)
+            a = max(0, g * 1000 + 100 - rng.choice([0, 50, 700]))
+            b = min(length, g * 1000 + 400 + rng.choice([0, 60, 900, 2500]))
+            if circular and rng.random() < 0.25:      # wraps over the origin, contains g0 or the last gene
+                a = length - rng.choice([700, 1500])
+                b = rng.choice([450, 1450])
+            return [a, b]
+
+        def files() -> List[Dict[str, Any]]:
+            out = []
+            for f in range(rng.choice([0, 0, 1, 1, 2])):
+                subs = [{"start": s[0], "end": s[1], "label": rng.choice(["lbl", "some label"]),
+                         "details": rng.choice([{}, {"score": ["6.5"]}])} for s in (span() for _ in range(rng.choice([0, 1, 2])))]
+                protos = [{"core_start": s[0], "core_end": s[1], "product": rng.choice(["T1PKS", "prodA"]),
+                           "nl": rng.choice([0, 50]), "nr": rng.choice([0, 70])}
+                          for s in (span() for _ in range(rng.choice([0, 0, 1])))]
+                out.append({"tool": {"name": f"tool {'ab'[f]}", "version": "1.0", "description": "desc"}, "subs": subs,
+                            "protos": protos, "other_record": rng.random() < 0.3})
+            return out
+
+        def simple() -> Any:
+            if rng.random() < 0.6:
+                return None
+            s = span()
+            if s[0] > s[1]:
+                s = [s[1], s[1] + 1500]
+            return [rng.choice([rec["id"], rec["id"], rec["original_id"] or rec["id"], "other_acc"]), s[0], s[1] + rng.choice([0, 100000])]
+        saved = {"files": files(), "simple": simple(),
+                 "markers": rng.sample(names, rng.choice([0, 0, 1, 2])) + (["nosuchgene"] if rng.random() < 0.15 else []),
+                 "padding": rng.choice([20000, 20000, 0, 500, 1234, 70000])}
+        cur = copy.deepcopy(saved)
+        mut = None
+        if rng.random() < 0.6:
+            mut = rng.choice(["padding", "padding", "padding", "markers_add", "markers_drop", "simple", "files", "none_requested",
+                              "only_padding_no_markers", "schema:2", "record_id"])
+            if mut == "padding":
+                if not saved["markers"]:
+                    saved["markers"] = cur["markers"] = [rng.choice(names)]
+                cur["padding"] = rng.choice([p for p in (20000, 0, 500, 1234, 999) if p != saved["padding"]])
+            elif mut == "only_padding_no_markers":
+                saved["markers"] = cur["markers"] = []
+                cur["padding"] = saved["padding"] + 1
+            elif mut == "markers_add":
+                cur["markers"] = saved["markers"] + [rng.choice(names)]
+            elif mut == "markers_drop":
+                if not saved["markers"]:
+                    saved["markers"] = [rng.choice(names)]
+                cur["markers"] = saved["markers"][:-1]
+            elif mut == "simple":
+                cur["simple"] = simple() if saved["simple"] is None or rng.random() < 0.5 else None
+            elif mut == "files":
+                cur["files"] = files()
+            elif mut == "none_requested":
+                cur = {"files": [], "simple": None, "markers": [], "padding": rng.choice([20000, 5])}
+        return {"kind": "sideopt", "record": rec, "saved": saved, "cur": cur, "mut": mut}
 
     def gen_resfile(self, rng: random.Random) -> Dict[str, Any]:
         records = []
@@ -656,6 +735,29 @@ class C11(Property):
                     yield {"kind": "hmmer", "module": "full_hmmer", "record_id": "rec1",
                            "saved": {"max_evalue": "0.01", "min_score": "25.0"}, "cur": {"max_evalue": ev, "min_score": sc},
                            "hits": hits, "op": op, "mut": "grid"}
+        # every combination of the two sibling pfam options, stored version and module
+        for module in ("full_hmmer", "cluster_hmmer"):
+            for stored in ("34.0", "35.0"):
+                for full in ("latest", "34.0", "35.0"):
+                    for cluster in ("latest", "34.0", "35.0"):
+                        for installed in (["34.0"], ["34.0", "35.0"]):
+                            if stored not in installed:
+                                continue
+                            total += 1
+                            yield {"kind": "hmmer", "module": module, "record_id": "rec1",
+                                   "saved": {"max_evalue": "0.01", "min_score": "0.0"}, "cur": {"max_evalue": "0.01", "min_score": "0.0"},
+                                   "hits": hits[:2], "op": "regenerate", "mut": None,
+                                   "pfam": {"stored": stored, "installed": installed, "full": full, "cluster": cluster}}
+        # sideloading by gene: every pair (saved padding, current padding) on a line and a ring
+        pads = [0, 500, 20000, 1234]
+        for circular in (False, True):
+            for a in pads:
+                for b in pads:
+                    total += 1
+                    base = {"files": [], "simple": None, "markers": ["g3"], "padding": a}
+                    yield {"kind": "sideopt", "record": {"id": "rec1", "original_id": None, "length": 8000, "circular": circular,
+                                                         "ngenes": 8},
+                           "saved": base, "cur": dict(base, padding=b), "mut": "padding" if a != b else None}
         self.exhaustive_done = True
         self.extra_coverage = {"small_scope_cases": total}
 
@@ -1223,6 +1325,104 @@ class C11(Property):
             areas[0]["details"] = {"k": "bare string"}
         return True
 
+    # ---- sideloader driven by its own options (real loader, real files)
+    @staticmethod
+    def sideopt_record(case: Dict[str, Any], record_id: Optional[str] = None) -> Any:
+        from antismash.common.secmet.test.helpers import DummyCDS, DummyRecord
+        r = case["record"]
+        feats = [DummyCDS(i * 1000 + 100, i * 1000 + 400, 1 if i % 3 else -1, locus_tag=f"g{i}") for i in range(r["ngenes"])]
+        rec = DummyRecord(features=feats, seq="A" * r["length"], record_id=record_id or r["id"], circular=r["circular"])
+        if r["original_id"]:
+            rec.original_id = r["original_id"]
+        return rec
+
+    def sideopt_options(self, case: Dict[str, Any], o: Dict[str, Any], tmp: str, tag: str, record: Any) -> Tuple[Any, Dict[str, Any]]:
+        """the options object of one run + the model's view of it (files as what they parse to for this record)"""
+        import os
+        import orjson
+        from antismash.detection.sideloader import SideloadSimple
+        from antismash.detection.sideloader.general import load_single_record_annotations
+        paths = []
+        for i, f in enumerate(o["files"]):
+            recs = [{"name": case["record"]["id"],
+                     "subregions": [dict(start=s["start"], end=s["end"], label=s["label"], **({"details": s["details"]} if s["details"] else {}))
+                                    for s in f["subs"]],
+                     "protoclusters": [dict(core_start=p["core_start"], core_end=p["core_end"], product=p["product"],
+                                            neighbourhood_left=p["nl"], neighbourhood_right=p["nr"]) for p in f["protos"]]}]
+            if f["other_record"]:
+                recs.append({"name": "someone_else", "subregions": [{"start": 1, "end": 900, "label": "x"}]})
+            path = os.path.join(tmp, f"{tag}_{i}.json")
+            with open(path, "wb") as handle:
+                handle.write(orjson.dumps({"tool": f["tool"], "records": recs}))
+            paths.append(path)
+        simple = SideloadSimple(*o["simple"]) if o["simple"] else ""
+        options = SimpleNamespace(sideload=paths, sideload_simple=simple, sideload_cds_markers=list(o["markers"]),
+                                  sideload_cds_padding=o["padding"])
+        view: Dict[str, Any] = {"n_files": len(paths), "simple": o["simple"], "markers": o["markers"], "padding": o["padding"]}
+        if paths:
+            only_files = load_single_record_annotations(paths, record, None, [], o["padding"])
+            view["file"] = to_wire(orjson.loads(orjson.dumps(only_files.to_json())))
+        return options, view
+
+    def impl_sideopt(self, case: Dict[str, Any]) -> Dict[str, Any]:
+        import os
+        import tempfile
+        import orjson
+        from antismash.common.errors import AntismashInputError
+        from antismash.detection import sideloader
+        from antismash.detection.sideloader.general import load_single_record_annotations
+        tmp = tempfile.mkdtemp(prefix="c11s_")
+        try:
+            rec_a = self.sideopt_record(case)
+            try:
+                saved_opts, saved_view = self.sideopt_options(case, case["saved"], tmp, "saved", rec_a)
+                cur_id = case["record"]["id"] + ("_other" if case.get("mut") == "record_id" else "")
+                cur_opts, cur_view = self.sideopt_options(case, case["cur"], tmp, "cur", self.sideopt_record(case, cur_id))
+                if not sideloader.is_enabled(saved_opts):
+                    return {"skip": "the saving run requests no sideloading"}
+                stored = sideloader.run_on_record(rec_a, None, saved_opts)
+                # what the current options load on their own must be loadable (input validation is not C11's subject)
+                load_single_record_annotations(cur_opts.sideload, self.sideopt_record(case), cur_opts.sideload_simple or None,
+                                               cur_opts.sideload_cds_markers, cur_opts.sideload_cds_padding)
+            except (AntismashInputError, ValueError) as exc:
+                return {"skip": f"annotations not loadable: {exc}"[:200]}
+            j_in = orjson.loads(orjson.dumps(stored.to_json()))
+            stored_wire = to_wire(j_in)
+            mut = case.get("mut")
+            cur_record_id = case["record"]["id"]
+            if mut == "schema:2":
+                j_in["schema_version"] = 2
+            elif mut == "record_id":
+                cur_record_id += "_other"
+            r = case["record"]
+            same_options = case["saved"] == case["cur"] and mut not in ("schema:2", "record_id")
+            obs: Dict[str, Any] = {
+                "json_in": to_wire(j_in), "stored": stored_wire, "mutated": not same_options,
+                "n_areas": len(stored.subregions) + len(stored.protoclusters),
+                "rec": {"id": cur_record_id, "original_id": r["original_id"], "length": r["length"], "circular": r["circular"],
+                        "cds": [[f"g{i}", i * 1000 + 100, i * 1000 + 400] for i in range(r["ngenes"])]},
+                "saved_rec_id": r["id"], "saved": saved_view, "cur": cur_view}
+            finals: List[Any] = []
+
+            def regen(j: Any) -> Any:
+                rec = self.sideopt_record(case, cur_record_id)
+                res = sideloader.regenerate_previous_results(j, rec, cur_opts)
+                if not finals:
+                    try:
+                        finals.append(sideloader.run_on_record(rec, res, cur_opts))
+                    except Exception as exc:  # pylint: disable=broad-except
+                        finals.append(exc)
+                return res
+            self.cycle(obs, j_in, regen, lambda y: y.to_json())
+            if finals and not isinstance(finals[0], Exception) and finals[0] is not None:
+                obs["final"] = to_wire(orjson.loads(orjson.dumps(finals[0].to_json())))
+            obs.pop("_obj", None)
+            return obs
+        finally:
+            for name in os.listdir(tmp):
+                os.unlink(os.path.join(tmp, name))
+            os.rmdir(tmp)
+
     # ---- HMMer based
     def hmmer_record(self, case: Dict[str, Any], record_id: Optional[str] = None) -> Any:
         from antismash.common.secmet.test.helpers import DummyCDS, DummyRecord
@@ -1245,8 +1445,9 @@ class C11(Property):
                                  description=h["description"], protein_start=h["ps"], protein_end=h["pe"],
                                  translation=cds.translation[h["ps"]:h["pe"]]))
         tool = "fullhmmer" if case["module"] == "full_hmmer" else "clusterhmmer"
+        pfam = case.get("pfam") or {"stored": "35.0", "installed": ["35.0"], "full": "latest", "cluster": "latest"}
         x = HmmerResults(rec_a.id, fl(case["saved"]["max_evalue"]), fl(case["saved"]["min_score"]),
-                         "/data/pfam/35.0/Pfam-A.hmm", tool, hits)
+                         f"/data/pfam/{pfam['stored']}/Pfam-A.hmm", tool, hits)
         j_in = orjson.loads(orjson.dumps(x.to_json()))
         mut = case.get("mut")
         applied = True
@@ -1259,7 +1460,9 @@ class C11(Property):
         changed = (max_e, min_s) != (fl(case["saved"]["max_evalue"]), fl(case["saved"]["min_score"]))
         obs: Dict[str, Any] = {"json_in": to_wire(j_in), "mutated": (bool(mut) and applied and mut != "grid") or changed,
                                "ctx": {"record_id": cur_record_id, "cds_names": []},
-                               "max_evalue": dec_of(max_e), "min_score": dec_of(min_s), "n_hits": len(hits)}
+                               "max_evalue": dec_of(max_e), "min_score": dec_of(min_s), "n_hits": len(hits),
+                               "pfam": {"module": case["module"], "full": pfam["full"], "cluster": pfam["cluster"],
+                                        "latest": pfam["installed"][-1]}}
         saved_consts = (module.MAX_EVALUE, module.MIN_SCORE)
         records: List[Any] = []
 
@@ -1274,6 +1477,8 @@ class C11(Property):
         try:
             # stability is judged against the JSON the first regeneration writes when thresholds changed
             self.cycle(obs, j_in, regen, lambda y: y.to_json(), n=1 if changed else 3)
+            if case["op"] == "regenerate" and obs.get("outcome") in ("reuse", "discard"):
+                obs["run"] = self.hmmer_run(module, case, pfam, obs.get("_obj"), cur_record_id)
             if obs.get("outcome") == "reuse":
                 y = obs["_obj"]
                 obs["hits_out"] = [to_wire(orjson.loads(orjson.dumps(h.to_json()))) for h in y.hits]
@@ -1291,6 +1496,49 @@ class C11(Property):
             module.MAX_EVALUE, module.MIN_SCORE = saved_consts
         obs.pop("_obj", None)
         return obs
+
+    def hmmer_run(self, module: Any, case: Dict[str, Any], pfam: Dict[str, Any], regenerated: Any, record_id: str) -> str:
+        """the module's real run_on_record after regeneration; only the hmmscan run itself is replaced"""
+        import os
+        import tempfile
+        from antismash.common import hmmer as hmmer_mod
+        tmp = tempfile.mkdtemp(prefix="c11p_")
+        made = []
+        for version in pfam["installed"]:
+            d = os.path.join(tmp, "pfam", version)
+            os.makedirs(d)
+            with open(os.path.join(d, "Pfam-A.hmm"), "w", encoding="utf-8") as handle:
+                handle.write("x")
+            made.append(d)
+        options = SimpleNamespace(fullhmmer_pfamdb_version=pfam["full"], clusterhmmer_pfamdb_version=pfam["cluster"],
+                                  database_dir=tmp)
+        searched: List[str] = []
+
+        def fake_run(record: Any, _features: Any, max_evalue: float, min_score: float, database: str, tool: str,
+                     **_kwargs: Any) -> Any:
+            searched.append(database)
+            return hmmer_mod.HmmerResults(record.id, max_evalue, min_score, database, tool, [])
+        saved = hmmer_mod.run_hmmer
+        hmmer_mod.run_hmmer = fake_run
+        try:
+            rec = self.hmmer_record(case, record_id)
+            rec.add_subregion(__import__("antismash.common.secmet.test.helpers", fromlist=["DummySubRegion"]).DummySubRegion(0, 3500))
+            rec.create_regions()
+            try:
+                result = module.run_on_record(rec, regenerated, options)
+            except Exception as exc:  # pylint: disable=broad-except
+                return outcome_of(exc)
+            if result is regenerated and regenerated is not None:
+                return "keep"
+            version = os.path.relpath(searched[-1], tmp).split(os.sep)[1] if searched else "?"
+            return "rerun:" + version
+        finally:
+            hmmer_mod.run_hmmer = saved
+            for d in made:
+                os.unlink(os.path.join(d, "Pfam-A.hmm"))
+                os.rmdir(d)
+            os.rmdir(os.path.join(tmp, "pfam"))
+            os.rmdir(tmp)
 
     @staticmethod
     def mutate_hmmer(j: Dict[str, Any], mut: str) -> bool:
@@ -1628,6 +1876,8 @@ class C11(Property):
             regen = "reuse" if case["regen"] == "reuse_empty" else case["regen"]
             return {"kind": kind, "has_prev": case["has_prev"], "regen": regen, "in_all": case["in_all"],
                     "enabled": case["enabled"]}
+        if kind == "sideopt":
+            return {"kind": kind, "json": obs["json_in"], "rec": obs["rec"], "saved": obs["saved"], "cur": obs["cur"]}
         line: Dict[str, Any] = {"kind": kind, "json": obs["json_in"], "ctx": obs.get("ctx", {})}
         if kind == "sideload" and "requested" in obs:
             line["requested"] = obs["requested"]
@@ -1636,6 +1886,8 @@ class C11(Property):
             line.update(obs.get("produced", {}))
         elif kind == "hmmer":
             line.update({"max_evalue": obs["max_evalue"], "min_score": obs["min_score"], "op": case["op"]})
+            if case["op"] == "regenerate":
+                line["pfam"] = obs["pfam"]
         elif kind == "tta":
             line.update({"gc": obs["gc"], "all_codons": obs["all_codons"],
                          "steps": [{"threshold": dec_of(fl(s["threshold"])), "record_id": obs["ctx"]["record_id"],
@@ -1673,6 +1925,9 @@ class C11(Property):
             if obs["json_out"] != drv["json"]:
                 corr = False
                 detail = "regenerated JSON differs: " + self.first_diff(obs["json_out"], drv["json"])
+            if corr and kind == "sideopt" and obs.get("final") != drv.get("final"):
+                corr = False
+                detail = "run_on_record after regeneration: " + self.first_diff(obs.get("final"), drv.get("final"))
             if corr and "domain_ids" in obs and obs["domain_ids"] != drv.get("domain_ids"):
                 corr = False
                 detail = f"feature identifiers: implementation {obs['domain_ids'][:6]} vs model {drv.get('domain_ids', [])[:6]}"
@@ -1690,6 +1945,9 @@ class C11(Property):
                 pass
         spec_ok = True
         known = None
+        if kind == "sideopt" and obs["saved_rec_id"] == obs["rec"]["id"] and obs["stored"] != drv.get("stored"):
+            corr = False
+            detail = detail or "annotations stored by run_on_record: " + self.first_diff(obs["stored"], drv.get("stored"))
         if kind == "hmmdet" and "saved_under" in drv:
             if "fresh_model" in drv and obs["produced"]["fresh_json"] != drv["fresh_model"]:
                 corr = False
@@ -1699,6 +1957,24 @@ class C11(Property):
                 spec_ok = False
                 detail = ("the JSON written by run_on_record does not state the settings it was produced under "
                           "(rule names, strictness, multipliers of the rule set)")
+        if kind == "hmmer" and "run" in obs:
+            if obs["run"] != drv.get("run"):
+                corr = False
+                detail = detail or f"run_on_record after regeneration: implementation {obs['run']} vs model {drv.get('run')}"
+            pf = case.get("pfam") or {"stored": "35.0", "installed": ["35.0"], "full": "latest", "cluster": "latest"}
+            wanted = pf["full" if case["module"] == "full_hmmer" else "cluster"]
+            wanted = pf["installed"][-1] if wanted == "latest" else wanted
+            if obs["run"] == "keep" and not drv.get("keep_allowed", True):
+                spec_ok = False
+                detail = ("PFAM results of another database version were kept although this module's option asks for "
+                          f"{wanted} (stored {pf['stored']})")
+            elif outcome == "reuse" and obs["run"] != "keep" and wanted == pf["stored"]:
+                spec_ok = False
+                detail = (f"PFAM results of the requested version {wanted} were thrown away ({obs['run']})")
+            elif obs["run"].startswith("rerun:") and obs["run"] != "rerun:" + wanted:
+                spec_ok = False
+                detail = f"searched again in {obs['run']} although this module's option asks for {wanted}"
+        failed_before = not spec_ok
         may = drv.get("may_reuse", True)
         if outcome == "reuse":
             if not may:
@@ -1735,6 +2011,8 @@ class C11(Property):
             tags += (f"{kind}:request:{case['request']}",)
         if kind == "hmmdet":
             tags += (f"hmmdet:via:{case.get('via', 'direct')}" + (":no-genes" if not case["record"]["genes"] else ""),)
+        if known and failed_before:
+            known = None         # another violation besides the recorded one
         if known:
             in_scope = False     # outside the hypothesis of hmmer_refilter_matches_fresh_partial
         return Judgement(corr, spec_ok, in_scope=in_scope, known=known, nontrivial=size > 0, tags=tags, detail=detail)
@@ -1877,6 +2155,21 @@ class C11(Property):
         elif kind == "hmmer":
             for i in range(len(case["hits"])):
                 yield dict(case, hits=case["hits"][:i] + case["hits"][i + 1:])
+        elif kind == "sideopt":
+            for which in ("saved", "cur"):
+                o = case[which]
+                other = "cur" if which == "saved" else "saved"
+                for key, empty in (("files", []), ("simple", None)):
+                    if o[key] and case[other][key] == o[key]:
+                        yield dict(case, **{which: dict(o, **{key: empty}), other: dict(case[other], **{key: empty})})
+                    elif o[key]:
+                        yield dict(case, **{which: dict(o, **{key: empty})})
+                for i in range(len(o["markers"])):
+                    m = o["markers"][:i] + o["markers"][i + 1:]
+                    if case[other]["markers"] == o["markers"]:
+                        yield dict(case, **{which: dict(o, markers=m), other: dict(case[other], markers=m)})
+            if case["record"]["original_id"]:
+                yield dict(case, record=dict(case["record"], original_id=None))
         elif kind == "resfile":
             for i in range(len(case["records"])):
                 if len(case["records"]) > 1:
